@@ -131,8 +131,18 @@ def roots_facts(sha=None):
         if os.path.exists(out):
             return out
         ensure_driver()
-        rdir = os.path.join(VERIF, "engine", "roots")
+        # build a copy of the harness whose path dependencies point at the tree being analysed
+        src = os.path.join(VERIF, "engine", "roots")
+        rdir = os.path.join(WORK, "roots_build", hashlib.sha1(REPO.encode()).hexdigest()[:10])
+        os.makedirs(os.path.join(rdir, "src"), exist_ok=True)
+        shutil.copy(os.path.join(src, "src", "lib.rs"), os.path.join(rdir, "src", "lib.rs"))
+        with open(os.path.join(src, "Cargo.toml")) as fh:
+            toml = fh.read().replace('"/repo/core"', '"%s/core"' % REPO).replace('"/repo"', '"%s"' % REPO)
+        with open(os.path.join(rdir, "Cargo.toml"), "w") as fh:
+            fh.write(toml)
         lock = os.path.join(REPO, "Cargo.lock")
+        if not os.path.exists(lock):
+            lock = "/repo/Cargo.lock"
         if os.path.exists(lock):
             shutil.copy(lock, os.path.join(rdir, "Cargo.lock"))
         tmp_out = tempfile.mkdtemp(prefix="egfacts-out-")
